@@ -48,6 +48,23 @@ func (in *instance) argFor(op, tok string, m flat) (any, error) {
 	switch in.kind {
 	case "steps":
 		return nil, nil // the input of the step / signal is fixed (callStep)
+	case "anylist":
+		// []any values as a decoder or a careless caller hands them over: items in non-canonical representations
+		var v any
+		switch tok {
+		case "list_mixed":
+			v = []any{int(1), uint8(2), float32(1.5), map[string]any{"k": int(1)}, []any{int16(3)}}
+		case "list_bad":
+			v = []any{int(1), uint8(2), struct{ X int }{1}} // the last item is refused, after the first were converted
+		case "map_list":
+			v = map[string]any{"k": []any{int(1), float32(2.5)}}
+		default:
+			return nil, fmt.Errorf("no concretisation for kind %s arg %s", in.kind, tok)
+		}
+		if in.ckind == "any_prop" {
+			return map[string]any{"p": v}, nil
+		}
+		return v, nil
 	case "disabled":
 		switch tok {
 		case "uses_disabled":
@@ -429,7 +446,7 @@ func (in *instance) call(op, tok string, m flat) (o obs) {
 			}
 			cur = mp["next"]
 		}
-	case "compat2":
+	case "compat2", "anylist":
 		// verdict only
 	case "disabled":
 		o.N = 1
